@@ -34,15 +34,21 @@ class DDSPathUtils(object):
                     DDSErrorCode.PATH_NOT_ABSOLUTE,
                 )
             # TODO: more checks
-            return DDSPath(p)
+            return DDSPathUtils._normalized(p)
         if isinstance(p, pathlib.Path):
             if not p.is_absolute():
                 raise DDSException(
                     f"Provided path {p} is not absolute. All paths must be absolute",
                     DDSErrorCode.PATH_NOT_ABSOLUTE,
                 )
-            return DDSPath(p.absolute().as_posix())
+            return DDSPathUtils._normalized(p.absolute().as_posix())
         raise NotImplementedError(f"Cannot make a path from object type {type(p)}: {p}")
+
+    @staticmethod
+    def _normalized(p: str) -> DDSPath:
+        # A path is the sequence of its non-empty segments: '/a//b/' and '/a/b' are the same path
+        # (they are the same location in the stores).
+        return DDSPath("/" + "/".join(s for s in p.split("/") if s))
 
     @staticmethod
     def split(p: DDSPath) -> Tuple[str, Optional[DDSPath]]:
